@@ -589,6 +589,13 @@ func (x *Exec) mapEntry(env *CEnv, e CExpr) (name string, key Term, elem string,
 			return
 		}
 		key = x.ceval(env, e.Args[0], "Ref")
+		if e.Fn == "deref" {
+			if pt, isP := types.Unalias(key.Ty).(*types.Pointer); isP {
+				elem = x.sortOf(pt.Elem())
+				return "H_cell:" + elem, key, elem, true
+			}
+			return
+		}
 		name, elem, ok = x.ifaceStateMap(env, e.Fn, key)
 		return
 	case CField:
@@ -1425,11 +1432,28 @@ func (x *Exec) convertTo(st *State, v Term, to types.Type, n ast.Node) Term {
 		v.Ty = to
 		return v
 	}
+	// conversion between distinct type parameters (BiMapS/B/I/F): an uninterpreted function
+	if _, ok := types.Unalias(to).(*types.TypeParam); ok && v.Ty != nil {
+		if _, ok2 := types.Unalias(v.Ty).(*types.TypeParam); ok2 {
+			r := x.convUF(v, ts)
+			r.Ty = to
+			return r
+		}
+	}
 	if n != nil {
 		x.unsupported(n, "conversion from sort %s (%v) to %s (%v)", v.Sort, v.Ty, ts, to)
 	}
 	r := x.zero(to)
 	return r
+}
+
+func (x *Exec) convUF(v Term, to string) Term {
+	if v.Sort == to {
+		return v
+	}
+	fn := "conv_" + sanitize(v.Sort) + "_" + sanitize(to)
+	x.d.fun(fn, []string{v.Sort}, to)
+	return tApp(to, fn, v)
 }
 
 // box: a concrete value becomes an interface value. Pointers keep their identity; other
